@@ -349,12 +349,34 @@ pub struct GenInfo {
     pub desc: String,
 }
 
+/// A simple glyph of 60-150 points with one-byte deltas (for the "dense" fonts of `gen_font`).
+fn dense_simple(rng: &mut Rng) -> ig::Simple {
+    let mut s = ig::gen_simple(rng, 1, 3, 100);
+    s.contours.clear();
+    s.instructions.clear();
+    let (mut x, mut y) = (0i32, 0i32);
+    for _ in 0..(3 + rng.below(3)) {
+        let mut c = Vec::new();
+        for _ in 0..(20 + rng.below(11)) {
+            x = (x + rng.range(-100, 100) as i32).clamp(-3000, 3000);
+            y = (y + rng.range(-100, 100) as i32).clamp(-3000, 3000);
+            c.push(ig::Pt { x: x as i16, y: y as i16, on: rng.chance(3, 4) });
+        }
+        s.contours.push(c);
+    }
+    s
+}
+
 /// A generated TrueType font: composites (nested, forward references), numberOfHMetrics <=
 /// numGlyphs, a cmap per `scenario`, optional cvt/fpgm/prep/OS/2 with odd lengths.
 pub fn gen_font(rng: &mut Rng, quick: bool, want: Option<CmapScenario>) -> Option<(Src, GenInfo)> {
     let scenario = want.unwrap_or_else(|| *rng.pick(&[CmapScenario::Bmp4, CmapScenario::Bmp4, CmapScenario::Astral12, CmapScenario::Symbol, CmapScenario::MacOnly, CmapScenario::Platform0, CmapScenario::BigMacRomanChars]));
     let big = scenario == CmapScenario::BigMacRomanChars || rng.chance(1, 12);
-    let n = if big { 257 + rng.below(if quick { 120 } else { 400 }) } else { 2 + rng.below(if quick { 40 } else { 90 }) };
+    // "dense": several hundred glyphs of many points with small deltas, so that the compact glyf table
+    // fits short loca offsets (< 131070 bytes) while an uncompacted re-serialisation (5 bytes per point,
+    // e.g. after WOFF2 reconstruction) may not - the short/long loca decision must then be revisited.
+    let dense = !big && rng.chance(1, 25);
+    let n = if dense { 380 + rng.below(160) } else if big { 257 + rng.below(if quick { 120 } else { 400 }) } else { 2 + rng.below(if quick { 40 } else { 90 }) };
     // kinds first so that composites may reference forward
     #[derive(Copy, Clone, PartialEq)]
     enum K {
@@ -362,7 +384,7 @@ pub fn gen_font(rng: &mut Rng, quick: bool, want: Option<CmapScenario>) -> Optio
         Simple,
         Comp,
     }
-    let comp_rate = *rng.pick(&[0u32, 2, 4, 8]);
+    let comp_rate = if dense { 0 } else { *rng.pick(&[0u32, 2, 4, 8]) };
     let kinds: Vec<K> = (0..n)
         .map(|i| {
             if rng.chance(1, 10) {
@@ -374,14 +396,14 @@ pub fn gen_font(rng: &mut Rng, quick: bool, want: Option<CmapScenario>) -> Optio
             }
         })
         .collect();
-    let range = *rng.pick(&[300i32, 2000, 16000]);
+    let range = if dense { 120 } else { *rng.pick(&[300i32, 2000, 16000]) };
     let mut glyphs: Vec<Glyph> = Vec::with_capacity(n);
     let mut npoints: Vec<usize> = vec![0; n];
     // simple glyphs first (point counts are needed by point-matching components)
     for i in 0..n {
         glyphs.push(match kinds[i] {
             K::Simple => {
-                let s = ig::gen_simple(rng, if big { 2 } else { 4 }, if big { 6 } else { 14 }, range);
+                let s = if dense { dense_simple(rng) } else { ig::gen_simple(rng, if big { 2 } else { 4 }, if big { 6 } else { 14 }, range) };
                 if s.contours.is_empty() {
                     Glyph::Empty
                 } else {
@@ -581,16 +603,19 @@ pub fn gen_font(rng: &mut Rng, quick: bool, want: Option<CmapScenario>) -> Optio
     }
     let cmap = icmap::write_cmap(&records, &subtables);
     // glyf / loca
-    let enc = EncChoice::random(rng);
+    let enc = if dense { EncChoice::compact() } else { EncChoice::random(rng) };
     let recs: Vec<Vec<u8>> = with_bbox
         .iter()
         .map(|(g, bb)| match g {
             Glyph::Empty => Vec::new(),
             Glyph::Simple(s) => ig::write_simple(s, *bb, rng, &enc),
-            Glyph::Composite(c) => ig::write_composite(c, *bb),
+            Glyph::Composite(c) => {
+                let nc = if rng.chance(1, 4) { *rng.pick(&[-2i16, -3, -100, -32768, -255]) } else { -1 };
+                ig::write_composite_nc(c, *bb, nc)
+            }
         })
         .collect();
-    let (glyf, loca, long) = ig::build_glyf_loca(&recs, rng.chance(1, 3), rng.bool());
+    let (glyf, loca, long) = if dense { ig::build_glyf_loca(&recs, false, false) } else { ig::build_glyf_loca(&recs, rng.chance(1, 3), rng.bool()) };
     let mut f = sfnt::Font::new(0x0001_0000);
     f.sets("cmap", cmap);
     f.sets("head", it::Head { index_to_loc_format: long as i16, ..Default::default() }.write());
